@@ -51,6 +51,7 @@ type c04case struct {
 	Recs    []c04rec `json:"recs"`
 	Queries [][3]int `json:"queries"`
 	Strat   string   `json:"strat"`
+	Qstrat  string   `json:"qstrat"`
 	Foreign []int    `json:"foreign"`
 	HasFor  bool     `json:"hasforeign"`
 }
@@ -350,7 +351,7 @@ func c04guard(f func()) (p string) {
 	return ""
 }
 
-func c04read(kind string, b []byte) (c04idx, bool, error) {
+func c04read(kind string, b []byte, qstrat string) (c04idx, bool, error) {
 	switch kind {
 	case "bai":
 		idx, err := bam.ReadIndex(bytes.NewReader(b))
@@ -370,6 +371,9 @@ func c04read(kind string, b []byte) (c04idx, bool, error) {
 			}
 		}
 		copy(refs, rs)
+		if qs, ok := c04strategy(qstrat); ok {
+			idx.MergeStrategy = qs
+		}
 		return &c04bai{idx: idx, refs: refs}, false, nil
 	case "tabix":
 		idx, err := tabix.ReadFrom(bytes.NewReader(b))
@@ -410,7 +414,7 @@ func c04(raw json.RawMessage) interface{} {
 	if c.HasFor {
 		var nilidx bool
 		var err error
-		if p := c04guard(func() { ix, nilidx, err = c04read(c.Kind, bytesOf(c.Foreign)) }); p != "" {
+		if p := c04guard(func() { ix, nilidx, err = c04read(c.Kind, bytesOf(c.Foreign), c.Qstrat) }); p != "" {
 			obs["rdpanic"] = p
 			return obs
 		}
@@ -487,6 +491,9 @@ func c04(raw json.RawMessage) interface{} {
 				c04iterData = data
 			}
 			bai = &bam.Index{}
+			if qs, ok := c04strategy(c.Qstrat); ok {
+				bai.MergeStrategy = qs // the strategy Chunks applies to the collected chunks (nil = Adjacent)
+			}
 			ix = &c04bai{idx: bai, refs: refs}
 		case "tabix":
 			tbx = tabix.New()
@@ -591,7 +598,7 @@ func c04(raw json.RawMessage) interface{} {
 	var ix2 c04idx
 	var rnil bool
 	var rerr error
-	if p := c04guard(func() { ix2, rnil, rerr = c04read(c.Kind, w1) }); p != "" {
+	if p := c04guard(func() { ix2, rnil, rerr = c04read(c.Kind, w1, c.Qstrat) }); p != "" {
 		obs["rdpanic"] = p
 		return obs
 	}
